@@ -66,6 +66,30 @@ class C09(C08):
     props_file = "Properties/C09.v"
 
 
+class C10(Prop):
+    id = "C10"
+    coq_targets = ["Properties/C10.vo", "Corr/C10.vo"]
+    props_file = "Properties/C10.v"
+    harness_cmd = "c10"
+    n = {"quick": 400, "thorough": 6000}
+    bits = {4: "with inline filters: what is visible under the configuration differs from pipeline(found, severities, filters)",
+            8: "without filters: what is visible under the configuration differs from 'same findings, relabelled; allow invisible'"}
+    rule = ("generated filter programs and the repository's own fixtures x configurations (all-allow, all-warn, all-deny, random "
+            "{unset, allow, warn, deny} per lint over all 32 lints); for each: the findings under the empty configuration of the "
+            "filter-neutralised twin, the real test_on of the file and of the twin under the configuration; non-trivial = at least "
+            "one finding; distinct = distinct descriptions")
+    trusted_base = [
+        "modelled: get_lint_severity, the order severities are attached and filtering runs (Pipeline/Severity.v on top of Filter/Machine.v)",
+        "lints are oracles: the findings of a file are taken from the real lints under the empty configuration",
+        "Generated/LintTable.v (names, default severities) regenerated from /repo on every run",
+        "CLI-side dropping of Allow diagnostics is the C19 model (Pipeline/Exit.v), exercised there with allow configurations",
+    ]
+    assumptions = ["every diagnostic code equals the name of the lint that produced it (checked per case)"]
+
+    def __init__(self):
+        self.translators = [_lint_table]
+
+
 class C06(Prop):
     id = "C06"
     coq_targets = ["Properties/C06.vo", "Corr/C06.vo"]
@@ -90,4 +114,4 @@ class C06(Prop):
 from .c19 import C19  # noqa: E402
 from .c16 import C16  # noqa: E402
 
-ALL = {c.id: c for c in [C06, C08, C09, C15, C16, C19]}
+ALL = {c.id: c for c in [C06, C08, C09, C10, C15, C16, C19]}
